@@ -1,12 +1,136 @@
-"""Per-property claims: technique, what the level means, trusted base. Edited as rules are added."""
+"""Per-property claims: technique, what the level means, trusted base."""
+
+TRUST = ("Trusted: CPython's ast of the files under /repo/pddl_plus_parser (the library is never imported or run by the check); the "
+         "annotation-driven call / type resolution of the engine (resolution statistics are in every evidence file); the oracle tables "
+         "frozen in the rule modules (contracts, exclusions), each with its reason. ")
 
 
 def register(claim):
+    claim("C01",
+          "path enumeration over statement CFGs of the parser dispatch loops (no-silent-drop, head-strip), finite guard valuation (polarity), table and arm coverage",
+          "Decides necessary conditions of faithful-or-rejected parsing for every domain text at once: on every acyclic path through each node "
+          "handler the node is consumed or rejected; a stripped head is pinned or kept; (not ..) polarity and (in)equality routing; one arm per "
+          "section storing into the matching field; length-guarded positional operands; accepted operators have evaluator entries; trailing typed-list "
+          "groups are flushed. It does not decide that the stored formula equals the written one.",
+          TRUST + "Findings recorded as known (repeated arguments collapse in name-keyed signatures) are listed in known_findings.json.",
+          "DESIGN.md 4/C01")
+    claim("C02",
+          "isinstance-dispatch arm analysis, abstract truth tables, finite valuation of the literal evaluator, def-use provenance",
+          "Decides the structural clauses of 'applicable iff precondition true': operator tables, literal truth value over (polarity, membership), "
+          "every operand class translated-and-attached or rejected, fold identity and per-arm folding, (in)equality semantics, subtype range of "
+          "quantifiers, pass-through of Operator.is_applicable. Truth of whole formulas in whole states is not decided. On the current tree the check "
+          "reports the known defect family that nested or / forall preconditions are ignored.",
+          TRUST + "Seven known findings (KF2-KF4) are reported as KNOWN-FINDING.",
+          "DESIGN.md 4/C02")
+    claim("C03",
+          "finite guard valuation over the CFG of Operator.apply, def-use provenance of state arguments, CFG ordering (delete-then-add), symbolic execution of assignment helpers, effect analysis (escape)",
+          "Decides for all states and domains: an effect group fires iff its antecedents hold in the pre-state parameter; effects are applied to the "
+          "copy that is returned; removals cannot follow insertions and are polarity-filtered; assign/increase/decrease compute v/old+v/old-v; numeric "
+          "right-hand sides read the pre-state; the universal pass dominates the return and ranges by subtype; no operator-owned fluent object "
+          "escapes into the successor. The frame condition and full successor equality are not decided.",
+          TRUST, "DESIGN.md 4/C03")
+    claim("C04",
+          "def-use chains over the CFG (loop-carried state threading), finite guard valuation (refusal table), handler / wiring provenance",
+          "Decides: the state handed to each step is the initial state or the previous triplet's next_state; exactly one triplet per plan line in "
+          "plan order; apply raises exactly for (validate, inapplicable, not allowed); the exporter catches that error and rebuilds the successor "
+          "from the pre-state; the allow flag comes from the constructor (default False). Per-step successor correctness is C03.",
+          TRUST, "DESIGN.md 4/C04")
+    claim("C05",
+          "must-pass-through (dominators) on validator CFGs, no-silent-drop path enumeration, provenance of stored values, sibling idiom check",
+          "Decides: every ground atom / fluent returned by the problem parser is dominated by an arity check, a per-argument subtype check and an "
+          "object lookup (and a function-name check); unknown components and a foreign domain name raise; sections are routed to their fields; the "
+          "trailing untyped object group is kept; values are float(third item) under the fluent's name. That stored content equals the text is not decided.",
+          TRUST + "assert-based checks vanish under python -O (noted in evidence).", "DESIGN.md 4/C05")
+    claim("C06",
+          "type-inference-driven lint (no ==/!= on PDDLType), registration / identity dataflow in parse_types, finite valuation of the ancestor walk",
+          "Decides: conformance is always tested with is_sub_type in the right direction; every type built by parse_types is registered and never "
+          "replaces a registered object (order independence hazards); the ancestor walk returns True only on name equality, False at the root and "
+          "otherwise recurses on the parent; 'object' is the root. Order independence of arbitrary re-implementations is not decided.",
+          TRUST, "DESIGN.md 4/C06")
+    claim("C07",
+          "interprocedural effect (mutation) summaries over access paths with ownership classification of fields; escape analysis",
+          "Decides, independently of the call history (which is what the property quantifies over): no function outside the mutators-by-contract "
+          "writes below a field that holds a constructor argument, below a parameter of a public entry point, or into a module-level object; no "
+          "owner-mutated object is stored into a state handed to it; State.copy is deep down to the fact / fluent objects. With no library write to "
+          "shared objects the thread-interleaving clause follows. Mutation by user code through remaining aliases is not decided.",
+          TRUST + "261 obligations (237 entry points) on the current tree; UNKNOWN-provenance writes are counted (0 today).", "DESIGN.md 4/C07")
+    claim("C08",
+          "backward slicing for field coverage, string-template extraction (polarity, keywords, parenthesis balance), provenance (order, options)",
+          "Decides: each domain printer's text depends on every declared field of what it prints; negative literal text is '(not '+positive+')'; "
+          "written keywords are reader heads; templates are balanced; signatures are printed in order; print options reach nested prints (known "
+          "finding: they do not). Equality after re-parsing is not decided.",
+          TRUST + "Three known findings (KF9).", "DESIGN.md 4/C08")
+    claim("C09",
+          "backward slicing for field coverage, template keywords / balance, provenance of the (:domain ..) reference",
+          "Decides: the problem text depends on every field of Problem named by the property, object / fact / fluent lines on all their parts, "
+          "keywords are parse_problem heads, templates are balanced. Round-trip equality is not decided.",
+          TRUST + "One known finding (position of repeated fluent arguments, KF1).", "DESIGN.md 4/C09")
+    claim("C10",
+          "keyword-set agreement writer/reader, sibling obligation cross-check, def-use threading in parse_trajectory, no-silent-drop",
+          "Decides: writers' section keywords equal the reader's heads; the trajectory fluent reader discharges the obligations of the problem "
+          "parser's (arity, types when known, repeated-argument bookkeeping); components are chained (pre-state = initial or copy of previous "
+          "post-state), one per operator line, malformed alternation raises; exporter layout. State equality after the round trip is not decided.",
+          TRUST, "DESIGN.md 4/C10")
+    claim("C11",
+          "def-use chain from text to tokens, regex-AST of the comment pattern, finite valuation of the recursive reader",
+          "Decides: no separator is deleted, lower(), parentheses padded, whitespace split, ';' comments cut before tokenising, both input modes "
+          "feed tokenize(); the reader raises on empty input and stray ')', collects sub-forms to the matching ')' and returns atoms unchanged. The "
+          "missing end-of-input check is reported as a known finding.",
+          TRUST, "DESIGN.md 4/C11")
     claim("C12",
-          "abstract evaluation of operator-table lambdas over a 5-point ordering domain + rational normal forms; def-use provenance for operand order",
-          "Decides, for every input at once, the structural clauses of C12: the arithmetic table computes x<op>y, the comparison "
-          "table is tolerant for = <= >= and strict for < >, the tolerance is the configured EPSILON, assign/increase/decrease set "
-          "v / old+v / old-v, and child 0 / child 1 are left / right operand at every evaluation, construction and printing site. "
-          "Floating-point results are not decided.",
-          "Trusted: CPython ast, the abstract model of math.isclose (|x-y|<=abs_tol when rel_tol=0), the folding of module constants.",
-          "DESIGN.md section 4 C12")
+          "abstract evaluation of operator-table lambdas over a 5-point ordering domain, rational normal forms, def-use provenance for operand order",
+          "Decides for every input at once: the arithmetic table computes x<op>y, the comparison table is tolerant for = <= >= and strict for < >, "
+          "the tolerance is the configured EPSILON with rel_tol pinned to 0, assign/increase/decrease set v / old+v / old-v, child 0 / child 1 are "
+          "left / right operand at every evaluation, construction and printing site, environment values are converted to numbers. Floating-point "
+          "results are not decided.",
+          TRUST + "Abstract model of math.isclose: |x-y| <= abs_tol when rel_tol = 0.", "DESIGN.md 4/C12")
+    claim("C13",
+          "table vocabulary check, regex-AST injectivity argument for the symbol naming, guard/use consistency, exact-class dispatch coverage (thin claim)",
+          "THIN: equivalence of sympy-simplified text for all valuations is out of reach of a static argument. Decided are necessary conditions only: "
+          "emitted operators are + - * /, the fluent->symbol naming deletes no distinguishing characters, an integer printed under a round() guard is "
+          "int(round()), the atom dispatch covers sympy's number classes, sides and operator of (in)equalities are kept.",
+          TRUST + "Four known findings (KF7a-c) are reported on the current tree.", "DESIGN.md 4/C13 and section 8")
+    claim("C14",
+          "AST symmetry of __eq__ operands, finite valuation of its result, effect-analysis freshness of State.copy, constructor field maps, backward slicing",
+          "Decides: __eq__ compares the same order-free view of facts and of fluents of both operands and returns their conjunction; State.copy "
+          "returns fresh containers with fresh element objects and propagates is_init; element copies initialise every declared field from the "
+          "original; serialize depends on both fields and is_init and prints the views __eq__ compares. Injectivity of serialisation is not decided.",
+          TRUST, "DESIGN.md 4/C14")
+    claim("C15",
+          "guard-structure analysis of the packing loop, finite valuation of the validator, provenance-labelled interference pairs (thin claim)",
+          "THIN: conservation, per-agent order and final-state equality over all plans are not decided. Decided: every slot store after the first is "
+          "under the well-definedness test; the validator accepts only with a free slot, applicability in the step's pre-state and no interference "
+          "(six required intersections present); one JointActionCall per step from nop-initialised slots indexed by agent; state threading through "
+          "apply_actions on the non-nop members.",
+          TRUST, "DESIGN.md 4/C15 and section 8")
+    claim("C16",
+          "finite guard valuation of apply_actions, def-use provenance of the accumulated state, loop threading, constructor-argument rule",
+          "Decides: member applicability is asked on the original state, effects accumulate on its copy, refusal iff (inapplicable and not allowed), "
+          "nop skipped before the schema lookup, the single-member shortcut passes the flag; the multi-agent exporter threads states with one "
+          "triplet per joint action; every applied Operator is built with the problem objects. Permutation independence is not decided.",
+          TRUST, "DESIGN.md 4/C16")
+    claim("C17",
+          "effect analysis (writes to module-level objects), def-use provenance of merge calls (same-named fields), finite valuation of the de-duplication guard",
+          "Decides: combining never writes into shared module-level state; each mergeable field of the combined domain / problem is fed from the "
+          "same-named field of every agent file into a fresh object; facts are inserted iff their ground text is absent, goal literals pass a set; "
+          "dummy actions only on request. Order independence for conflicting values is not decided.",
+          TRUST, "DESIGN.md 4/C17")
+    claim("C18",
+          "container mutate-while-iterate pattern over the CFG (simultaneous substitution), backward slice of visited fields, provenance of rebuilt pairs",
+          "Decides: every change_signature builds the renamed signature from a snapshot in the old order with the old types (so overlapping maps "
+          "such as swaps are safe); (in)equality pairs are rebuilt component-wise; Action.change_signature visits every field that mentions "
+          "parameters (known finding: conditional / universal effects and nested pairs are not). Behavioural equivalence is not decided.",
+          TRUST + "Three known findings (KF8).", "DESIGN.md 4/C18")
+    claim("C19",
+          "regex-AST analysis of the step pattern, def-use provenance of emitted steps, finite valuation of the status function",
+          "Decides: nothing inside the step capture group can match a line break and the step ends at its line's end; steps are "
+          "group(1).lower().strip() in match order; 'ok' only under the plan marker, otherwise an empty list; ENHSP: one lower-cased line per input "
+          "line. That real logs contain nothing else matching the pattern is an assumption.",
+          TRUST, "DESIGN.md 4/C19")
+    claim("C20",
+          "def-use provenance of the parameter map and of per-position lookups, finite valuation over 'is a domain constant', loop completeness",
+          "Decides: parameter map = zip(signature, call arguments) in order; declared parameter i is bound through the literal's i-th argument; "
+          "constants keep name and own type, parameters take the action's type; effect groups ground all their effects, one group per schema group; "
+          "the precondition translation attaches every operand class (known finding: nested / forall are dropped). Set equality with the substituted "
+          "schema is not decided.",
+          TRUST + "Five known findings (KF1, KF2, KF4).", "DESIGN.md 4/C20")
